@@ -357,10 +357,10 @@ def write_scsv_header(stream, schema, comments=None):
         for comment in comments:
             stream.write("# " + comment + os.linesep)
     stream.write("schema:" + os.linesep)
-    delimiter = schema["delimiter"]
-    missing = schema["missing"]
-    stream.write(f"  delimiter: '{delimiter}'{os.linesep}")
-    stream.write(f"  missing: '{missing}'{os.linesep}")
+    delimiter = _quote_yaml_string(schema["delimiter"])
+    missing = _quote_yaml_string(schema["missing"])
+    stream.write(f"  delimiter: {delimiter}{os.linesep}")
+    stream.write(f"  missing: {missing}{os.linesep}")
     stream.write("  fields:" + os.linesep)
 
     for field in schema["fields"]:
@@ -369,10 +369,14 @@ def write_scsv_header(stream, schema, comments=None):
         stream.write(f"    - name: {name}{os.linesep}")
         stream.write(f"      type: {kind}{os.linesep}")
         if "unit" in field:
-            unit = field["unit"]
+            unit = _quote_yaml_string(field["unit"])
             stream.write(f"      unit: {unit}{os.linesep}")
         if "fill" in field:
             fill = field["fill"]
+            if kind == _SCSV_DEFAULT_TYPE:
+                # Free text must be quoted, otherwise YAML reads e.g. '' as null,
+                # 'yes' as a boolean and '1.50' as a number.
+                fill = _quote_yaml_string(fill)
             stream.write(f"      fill: {fill}{os.linesep}")
     stream.write("---" + os.linesep)
 
@@ -735,6 +739,13 @@ def _validate_scsv_schema(schema):
             _log.error("SCSV field of type '%s' requires a fill value", field["type"])
             return False
     return True
+
+
+def _quote_yaml_string(s):
+    """Return `s` as a quoted YAML scalar (single quotes unless escapes are needed)."""
+    return yaml.safe_dump(
+        str(s), default_style="'", allow_unicode=True, width=2**31
+    ).strip()
 
 
 def _parse_scsv_bool(x):
